@@ -68,7 +68,7 @@ def build(env, shape, coords=True):
     from glue.core.coordinates import AffineCoordinates
     from glue.core.component import CategoricalComponent
     x = env.reals('x', shape, nan=True)
-    y = env.reals('y', shape)
+    y = env.reals('y', shape, lo=-60, hi=60)
     c = AffineCoordinates(AFFINE[len(shape)]) if coords else None
     d = mk_data('d', coords=c, x=x, y=y)
     letters = np.array(['b', 'a', 'c', 'a', 'b', 'c', 'c', 'a', 'b', 'b', 'a', 'c'])[:int(np.prod(shape))].reshape(shape)
@@ -237,6 +237,13 @@ def body_masks(env, shape=(2, 3), kinds=SEL_KINDS, vsel=None, view_first=True):
     env.true(tuple(np.shape(got)) == tuple(np.shape(want)), 'shape of mask: ' + tag)
     env.same(got, want, 'mask: ' + tag)
     env.true(tuple(np.shape(full)) == tuple(shape), 'full mask has the dataset shape: ' + tag)
+    # the parts of a composite selection obey the same law after the whole has been evaluated (cached member masks
+    # must not have been altered by evaluating the combination for this view)
+    member = getattr(st, 'state1', None) or (getattr(st, 'states', None) or [None])[0]
+    if member is not None:
+        gm = d.get_mask(member, view=view)
+        fm = index_full(d.get_mask(member, view=(Ellipsis if view is None else None)), view)
+        env.same(gm, fm, 'mask of the first member of the composite: ' + tag)
     # through a Subset object as well
     from glue.core.subset import Subset
     s = d.new_subset()
@@ -244,19 +251,19 @@ def body_masks(env, shape=(2, 3), kinds=SEL_KINDS, vsel=None, view_first=True):
     env.same(s.to_mask(view), want, 'Subset.to_mask(view): ' + tag)
 
 
-def body_indexed(env, shape=(2, 3, 2), reassign=True):
+def body_indexed(env, shape=(2, 3, 2), reassign=True, stats=True):
     """IndexedData: values and masks equal those of the parent's slice, also after the indices are changed"""
     from glue.core.data_derived import IndexedData
     d, x, y, letters = build(env, shape)
     nd = len(shape)
     keep = env.choice('kept_axes_pattern', 2 ** nd - 2) + 1          # which axes are kept (not all, not none)
-    idx = tuple(None if (keep >> i) & 1 else env.choice('index%d' % i, shape[i]) for i in range(nd))
+    idx = tuple(None if (keep >> i) & 1 else (env.choice('index%d' % i, shape[i] + 1) - 1) for i in range(nd))          # -1 .. n-1
     if all(i is None for i in idx):
         env.assume(False)
     ind = IndexedData(d, idx)
     rounds = [idx]
     if reassign:
-        idx2 = tuple(None if i is None else (i + 1) % shape[k] for k, i in enumerate(idx))
+        idx2 = tuple(None if i is None else ((i + 1) % shape[k] if i >= 0 else -2 if shape[k] > 1 else -1) for k, i in enumerate(idx))
         rounds.append(idx2)
     t = env.real('t')
     for r, cur in enumerate(rounds):
@@ -281,6 +288,23 @@ def body_indexed(env, shape=(2, 3, 2), reassign=True):
         env.same(ind.get_mask(st), d.get_mask(st)[parent_view], 'IndexedData mask, indices %s' % (cur,))
         sub = tuple(slice(None, None, 2) if k == len(rshape) - 1 else slice(None) for k in range(len(rshape)))
         env.same(ind.get_mask(st, view=sub), d.get_mask(st)[parent_view][sub], 'IndexedData mask with a view, indices %s' % (cur,))
+        if stats:
+            # statistics and histograms equal those of the parent's slice
+            if env.symbolic:
+                from .c10 import install_hist_stub, _HIST
+                install_hist_stub()
+                _HIST['true_hi'] = 64.0
+            pv = d[d.id['y']][parent_view]
+            got = ind.compute_statistic('sum', d.id['y'])
+            env.same(got, np.sum(pv), 'IndexedData sum equals the sum over the parent slice, indices %s' % (cur,))
+            got = ind.compute_statistic('maximum', d.id['y'], axis=0)
+            env.same(got, np.max(pv, axis=0), 'IndexedData maximum along axis 0, indices %s' % (cur,))
+            h = ind.compute_histogram([d.id['y']], range=[(-64.0, 64.0)], bins=[1])
+            env.same(h[0], float(np.size(pv)), 'IndexedData histogram total equals the size of the parent slice, indices %s' % (cur,))
+            h2 = ind.compute_histogram([d.id['y']], range=[(-64.0, 64.0)], bins=[2], subset_state=d.id['y'] > t)
+            inb = [((pv > t) & (pv >= lo_) & (pv < hi_)) for lo_, hi_ in ((-64.0, 0.0), (0.0, 64.5))]
+            for b in range(2):
+                env.same(h2[b], np.sum(np.where(inb[b], 1.0, 0.0)), 'IndexedData histogram bin %d with a selection, indices %s' % (b, cur))
 
 
 def _known_empty_world():
